@@ -352,6 +352,10 @@ def _nontrivial(spec):
 
 def run(ctx):
     rng = ctx.rng
+    from rv.props import concurrent_jobs
+
+    concurrent_jobs.run_some(ctx, "C09", quick=3, thorough=12)        # the same calls from a thread pool (rv/core/threads.py)
+    ctx.must_monitors.append("concurrent_calls")
     ctx.rule = ("(task, vocabulary, per-clip true tags / predicted tag scores / sound events) as a plain JSON spec; dyadic scores (multiples of 1/64) so float32 encoding is exact; "
                 "non-trivial = >= 2 evaluated items with different truths; distinct = distinct spec")
     ctx.assumptions += ["metrics re-implemented with numpy only from the spec's tags (library encoders and scikit-learn not used by the oracle)",
